@@ -105,7 +105,7 @@ Op(t) == Scripts[t][th[t].ip]
 InitLocal(t) ==
     LET r0 == [ip |-> 0, pc |-> "start", lab |-> "-", mid |-> FALSE, slots |-> <<>>,
                task |-> -1, mine |-> -1, xlock |-> -1, idx |-> 0, scan |-> 0,
-               q |-> 0, nt |-> 0, res |-> -1]
+               q |-> 0, nt |-> 0, res |-> -1, old |-> 0]
     IN Finish(t, r0)
 
 Init == /\ cursor = 0
@@ -144,11 +144,23 @@ GInc(t) == /\ th[t].pc = "g.inc"
            /\ th' = [th EXCEPT ![t] = Goto([@ EXCEPT !.nt = taken + 1], "g.max", "max")]
            /\ UNCHANGED <<cursor, flag, maxtaken, total, qlock, queue, lk, ctr, ctrmax>>
 
-\* load + compare-and-swap happen inside one grant, so the swap succeeds
+\* AtomicValue::max = load, compare-and-swap, and on failure reload + compare-and-swap again (three yield points:
+\* "max" before the load, "max.cas" before the first swap, "max.retry" before the reload; the reload and the swap that
+\* follows it happen inside one grant, so that swap succeeds)
 GMax(t) == /\ th[t].pc = "g.max"
-           /\ maxtaken' = MaxOf(maxtaken, th[t].nt)
-           /\ th' = [th EXCEPT ![t] = Goto(@, "g.tot", "pre_increment")]
-           /\ UNCHANGED <<cursor, flag, taken, total, qlock, queue, lk, ctr, ctrmax>>
+           /\ th' = [th EXCEPT ![t] = Goto([@ EXCEPT !.old = maxtaken], "g.mcas", "max.cas")]
+           /\ UNCHANGED <<cursor, flag, taken, maxtaken, total, qlock, queue, lk, ctr, ctrmax>>
+GMCas(t) == /\ th[t].pc = "g.mcas"
+            /\ IF maxtaken = th[t].old
+               THEN /\ maxtaken' = MaxOf(th[t].old, th[t].nt)
+                    /\ th' = [th EXCEPT ![t] = Goto(@, "g.tot", "pre_increment")]
+               ELSE /\ UNCHANGED maxtaken
+                    /\ th' = [th EXCEPT ![t] = Goto(@, "g.mret", "max.retry")]
+            /\ UNCHANGED <<cursor, flag, taken, total, qlock, queue, lk, ctr, ctrmax>>
+GMRet(t) == /\ th[t].pc = "g.mret"
+            /\ maxtaken' = MaxOf(maxtaken, th[t].nt)
+            /\ th' = [th EXCEPT ![t] = Goto(@, "g.tot", "pre_increment")]
+            /\ UNCHANGED <<cursor, flag, taken, total, qlock, queue, lk, ctr, ctrmax>>
 
 GTot(t) == /\ th[t].pc = "g.tot"
            /\ total' = total + 1
@@ -286,15 +298,26 @@ COp(t) == /\ th[t].pc = "c.op"
                             [] k \in {"post_add", "pre_add"} -> ctr + v
                             [] k = "pre_sub" -> ctr - v
                             [] OTHER -> ctr
-                /\ ctrmax' = IF k = "max" THEN MaxOf(ctrmax, v) ELSE ctrmax
-          /\ th' = [th EXCEPT ![t] = Finish(t, @)]
-          /\ UNCHANGED <<cursor, flag, taken, maxtaken, total, qlock, queue, lk>>
+                /\ th' = [th EXCEPT ![t] = IF k = "max" THEN Goto([@ EXCEPT !.old = ctrmax], "c.mcas", "max.cas")
+                                                        ELSE Finish(t, @)]
+          /\ UNCHANGED <<cursor, flag, taken, maxtaken, total, qlock, queue, lk, ctrmax>>
+CMCas(t) == /\ th[t].pc = "c.mcas"
+            /\ IF ctrmax = th[t].old
+               THEN /\ ctrmax' = MaxOf(th[t].old, Op(t).v)
+                    /\ th' = [th EXCEPT ![t] = Finish(t, @)]
+               ELSE /\ UNCHANGED ctrmax
+                    /\ th' = [th EXCEPT ![t] = Goto(@, "c.mret", "max.retry")]
+            /\ UNCHANGED <<cursor, flag, taken, maxtaken, total, qlock, queue, lk, ctr>>
+CMRet(t) == /\ th[t].pc = "c.mret"
+            /\ ctrmax' = MaxOf(ctrmax, Op(t).v)
+            /\ th' = [th EXCEPT ![t] = Finish(t, @)]
+            /\ UNCHANGED <<cursor, flag, taken, maxtaken, total, qlock, queue, lk, ctr>>
 
-Step(t) == \/ GChk(t) \/ GCur(t) \/ GCas(t) \/ GInc(t) \/ GMax(t) \/ GTot(t)
+Step(t) == \/ GChk(t) \/ GCur(t) \/ GCas(t) \/ GInc(t) \/ GMax(t) \/ GMCas(t) \/ GMRet(t) \/ GTot(t)
            \/ FUnl(t) \/ FDec(t)
            \/ ALk(t) \/ AUl(t)
            \/ PLk(t) \/ PD0(t) \/ PD1(t) \/ PRb(t) \/ PUl(t) \/ UD1(t) \/ UD0(t)
-           \/ LLk(t) \/ LTry(t) \/ LUnl(t) \/ COp(t)
+           \/ LLk(t) \/ LTry(t) \/ LUnl(t) \/ COp(t) \/ CMCas(t) \/ CMRet(t)
 
 Next == \E t \in Threads : Step(t)
 Spec == Init /\ [][Next]_vars
